@@ -218,6 +218,7 @@ func propC07(c *Ctx) {
 	g := NewGen(c.seed)
 	var corr []corrCase
 	c.c07Direct(g, &corr)
+	c.c07NonceLengths(g)
 	c.c07PrfPlus(g, &corr)
 	c.c07TwoParty(g, &corr)
 	sc := c.suite("ike-keys-model-vs-impl", "correspondence",
@@ -337,6 +338,28 @@ func (c *Ctx) c07Direct(g *Gen, corr *[]corrCase) {
 		for _, in := range []kdInputs{{nil, []byte{1}, 1, 2}, {[]byte{1}, nil, 1, 2}, {[]byte{}, []byte{}, 0, 0}} {
 			r := kdDerive(kdBlankSA(st, 0), in.nonce, in.secret, in.spiI, in.spiR)
 			*corr = append(*corr, corrCase{line: kdIkeLine("ikekeys", st, in.nonce, in.secret, in.spiI, in.spiR), goRes: r.String(), tags: []string{"op:ikekeys-empty"}})
+		}
+	}
+}
+
+// every nonce length (see c08NonceLengths): seed of prf+ = Ni|Nr|SPIi|SPIr
+func (c *Ctx) c07NonceLengths(g *Gen) {
+	s := c.suite("ike-keys-every-nonce-length", "oracle",
+		"per PRF (largest key set: AES-CBC-256 + HMAC-SHA2-256-128): Ni|Nr of every length 1..700 (thorough: 1..2100) with a 128- or 256-octet shared secret; seven keys = stdlib reference; non-trivial = every case; distinct by (prf, length)")
+	max := c.n(700, 2100)
+	for p := 0; p < 3; p++ {
+		st := suite{2, 2, p}
+		for n := 1; n <= max; n++ {
+			in := kdInputs{nonce: g.keyBytesRandom(n), secret: g.keyBytesRandom(128 + 128*(n%2)), spiI: g.r.Uint64(), spiR: g.r.Uint64()}
+			line := kdIkeLine("ikekeys", st, in.nonce, in.secret, in.spiI, in.spiR)
+			setCase(line)
+			s.add(fmt.Sprintf("prf=%d nonce-length=%d", p, n), true, fmt.Sprintf("prf:%d", p))
+			r := kdDerive(kdBlankSA(st, n%2), in.nonce, in.secret, in.spiI, in.spiR)
+			if want := kdRefIkeKeys(st, in.nonce, in.secret, in.spiI, in.spiR); r.kind != "ok" || r.val != want.keysStr() {
+				c.violate(Violation{Suite: s.Name, Kind: "property", Index: n, Class: "ike-keys-nonce-length",
+					Desc: fmt.Sprintf("IKE SA keys for Ni|Nr of %d octets (PRF %d) differ from the RFC 7296 s2.13-2.14 reference", n, p), Input: line, Expected: "ok " + want.keysStr(), Actual: clip(r.String())})
+				break
+			}
 		}
 	}
 }
@@ -755,6 +778,7 @@ func propC08(c *Ctx) {
 	g := NewGen(c.seed)
 	var corr []corrCase
 	c.c08Direct(g, &corr)
+	c.c08NonceLengths(g)
 	c.c08History(g, &corr)
 	c.c08SameChild(g, &corr)
 	sc := c.suite("child-keys-model-vs-impl", "correspondence",
@@ -853,6 +877,33 @@ type keptChild struct {
 	ck   *security.ChildSAKey
 	want string
 	line string
+}
+
+// every nonce length: the input of a prf+ round is T(n-1) | Ni|Nr | n, whose size crosses whatever block or buffer
+// size an implementation works with at some nonce length
+func (c *Ctx) c08NonceLengths(g *Gen) {
+	s := c.suite("child-keys-every-nonce-length", "oracle",
+		"per PRF: Ni|Nr of every length 0..700 (thorough: 0..2100), the largest KEYMAT (AES-CBC-256 + HMAC-SHA2-256-128: 128 octets = 4..8 prf+ rounds) and a second transform choice in rotation; keys = stdlib prf+ reference; non-trivial = nonce of >= 1 octet; distinct by (prf, length)")
+	max := c.n(700, 2100)
+	for p := 0; p < 3; p++ {
+		k := g.saKeys(suite{g.intn(3), g.intn(3), p})
+		for n := 0; n <= max; n++ {
+			e, i := 2, 2
+			if n%3 == 1 {
+				e, i = g.intn(3), g.intn(4)-1
+			}
+			nonce := g.keyBytesRandom(n)
+			line := kdChildLine("childkeys", p, k.d, e, i, nonce)
+			setCase(line)
+			s.add(fmt.Sprintf("prf=%d nonce-length=%d e=%d i=%d", p, n, e, i), n > 0, fmt.Sprintf("prf:%d", p))
+			r := kdChildK(g, k, e, i, nonce, 1)
+			if want := "ok " + kdRefChild(p, k.d, nonce, e, i); r.String() != want {
+				c.violate(Violation{Suite: s.Name, Kind: "property", Index: n, Class: "child-keys-nonce-length",
+					Desc: fmt.Sprintf("Child SA keys for Ni|Nr of %d octets (PRF %d) differ from the RFC 7296 s2.17 reference", n, p), Input: line, Expected: want, Actual: clip(r.String())})
+				break
+			}
+		}
+	}
 }
 
 func (c *Ctx) c08History(g *Gen, corr *[]corrCase) {
@@ -1172,7 +1223,7 @@ func (c *Ctx) c09Values(g *Gen, corr *[]corrCase) {
 
 func (c *Ctx) c09Random(g *Gen) {
 	s := c.suite("random-exponent", "oracle",
-		"security.GenerateRandomNumber under the deterministic crypto/rand.Reader: octet streams random (256..700 octets, cyclic), first draw forced <= 2^128-1 (240 zero octets, incl. exactly 2^128-1 and exactly 2^128), first draw forced = 2^2048-1 (rejected inside rand.Int); result = what the stdlib's rand.Int yields for the same octets, 2^128 <= r < 2^2048, reader consumed equally; different served octets give different numbers, two calls on one stream differ; a failure injected at every Read index 0..k-1 (k = reads of the successful run) gives an error and no number, at index k no failure is seen; NewIKESAKey and CalculateDiffieHellmanMaterials with the failing reader return an error and no SA / public value, with a good reader the local public value is 2^r mod p; non-trivial = every case; distinct by octet stream")
+		"security.GenerateRandomNumber under the deterministic crypto/rand.Reader: octet streams random (256..700 octets, cyclic), first draw forced <= 2^128-1 (240 zero octets, incl. exactly 2^128-1 and exactly 2^128), first draw forced = 2^2048-1 (rejected inside rand.Int); result = what the stdlib's rand.Int yields for the same octets, 2^128 <= r < 2^2048, reader consumed equally; the same octets delivered in pieces of at most 1/7/100/255 octets per Read give the same number, a source failing in the middle of a draw gives an error; different served octets give different numbers, two calls on one stream differ; a failure injected at every Read index 0..k-1 (k = reads of the successful run) gives an error and no number, at index k no failure is seen; NewIKESAKey and CalculateDiffieHellmanMaterials with the failing reader return an error and no SA / public value, with a good reader the local public value is 2^r mod p; non-trivial = every case; distinct by octet stream")
 	lo := new(big.Int).Lsh(bigN(1), 128)
 	hi := new(big.Int).Lsh(bigN(1), 2048)
 	seen := map[string]string{}
@@ -1222,6 +1273,39 @@ func (c *Ctx) c09Random(g *Gen) {
 			fail("collision", "two different octet sequences produced the same exponent", "distinct exponents", r.val)
 		}
 		seen[r.val] = served
+		// the same octets delivered in pieces (Read may return fewer octets than asked, with a nil error), and a
+		// source that fails after delivering a part of what one draw needs
+		for _, chunk := range []int{1, 7, 100, 255} {
+			var num *big.Int
+			cr := guard(func() (string, error) {
+				var err error
+				withChunkRand(rnd, chunk, -1, func() { num, err = security.GenerateRandomNumber() })
+				if err != nil {
+					return "", err
+				}
+				return num.Text(16), nil
+			})
+			s.Dist["chunked-source:"+cr.kind]++
+			if cr.String() != r.String() {
+				fail("short-reads", fmt.Sprintf("random source delivering at most %d octets per Read (nil error): result differs from the result on the same octets delivered at once", chunk), r.String(), cr.String())
+				break
+			}
+		}
+		if j%3 == 0 {
+			cut := 1 + g.intn(255)
+			var num *big.Int
+			cr := guard(func() (string, error) {
+				var err error
+				withChunkRand(rnd, 64, cut, func() { num, err = security.GenerateRandomNumber() })
+				if err != nil {
+					return "", err
+				}
+				return num.Text(16), nil
+			})
+			if cr.kind != "err" || num != nil {
+				fail("failure-ignored", fmt.Sprintf("random source failed after delivering %d octets of the first draw (short reads, then an error) but a number was returned", cut), "err", cr.String())
+			}
+		}
 		// two calls on one stream
 		if j%6 <= 1 {
 			var a, b *big.Int
@@ -1339,9 +1423,10 @@ func kdAkaGo(ik, ck, id []byte) callRes {
 func propC16(c *Ctx) {
 	g := NewGen(c.seed)
 	s := c.suite("aka-prf-vs-rfc", "oracle",
-		"eap.EapAkaPrimePRF: IK', CK' of 1..64 octets each (equal and unequal lengths, 16/16 most often; all-zero, all-ff, random), identity = Go string made from 0..255 arbitrary octets (incl. NUL, >= 0x80, invalid UTF-8, empty); K_encr, K_aut, K_re, MSK, EMSK = octets [0,16) [16,48) [48,80) [80,144) [144,208) of the stdlib HMAC-SHA-256 recursion PRF'(IK'|CK', \"EAP-AKA'\"|identity); empty (nil and zero-length) IK' or CK' => error and no key material; inputs unchanged; non-trivial = both keys non-empty; distinct by (IK', CK', identity)")
+		"eap.EapAkaPrimePRF: IK', CK' of 1..64 octets each (equal and unequal lengths, 16/16 most often; all-zero, all-ff, random), identity = Go string made from 0..255 arbitrary octets (incl. NUL, >= 0x80, invalid UTF-8, empty); K_encr, K_aut, K_re, MSK, EMSK = octets [0,16) [16,48) [48,80) [80,144) [144,208) of the stdlib HMAC-SHA-256 recursion PRF'(IK'|CK', \"EAP-AKA'\"|identity); empty (nil and zero-length) IK' or CK' => error and no key material; inputs unchanged; every 4th call uses the arguments of the preceding call with an argument boundary moved by 1..3 octets (IK'|CK', CK'|identity), the same arguments again, or one octet changed; non-trivial = both keys non-empty; distinct by (IK', CK', identity)")
 	var corr []corrCase
 	n := c.n(600, 60000)
+	var prevIk, prevCk, prevId []byte
 	for j := 0; j < n; j++ {
 		var ik, ck, id []byte
 		la, lb := 16, 16
@@ -1366,6 +1451,43 @@ func propC16(c *Ctx) {
 		default:
 			id = g.keyBytesRandom(g.intn(256))
 		}
+		derived := ""
+		if j%4 == 3 && len(prevIk) > 1 && len(prevCk) > 1 {
+			// inputs related to those of the PRECEDING call: the same octets with a boundary between two arguments
+			// moved, the same call again, or one octet changed (whatever is remembered between calls must be keyed
+			// on the arguments themselves, not on their concatenation or a part of it)
+			ik, ck, id = append([]byte{}, prevIk...), append([]byte{}, prevCk...), append([]byte{}, prevId...)
+			k := 1 + g.intn(3)
+			switch g.intn(6) {
+			case 0:
+				if len(ck) > k {
+					id, ck, derived = append(append([]byte{}, ck[len(ck)-k:]...), id...), ck[:len(ck)-k], "CK' tail moved to the identity"
+				}
+			case 1:
+				if len(id) >= k {
+					ck, id, derived = append(ck, id[:k]...), id[k:], "identity head moved to CK'"
+				}
+			case 2:
+				if len(ik) > k {
+					ck, ik, derived = append(append([]byte{}, ik[len(ik)-k:]...), ck...), ik[:len(ik)-k], "IK' tail moved to CK'"
+				}
+			case 3:
+				if len(ck) > k {
+					ik, ck, derived = append(ik, ck[:k]...), ck[k:], "CK' head moved to IK'"
+				}
+			case 4:
+				derived = "same arguments again"
+			default:
+				if len(id) > 0 {
+					id[len(id)-1] ^= 1
+					derived = "last identity octet changed"
+				} else {
+					ck[len(ck)-1] ^= 1
+					derived = "last CK' octet changed"
+				}
+			}
+		}
+		prevIk, prevCk, prevId = ik, ck, id
 		if j%40 == 39 { // refused inputs
 			switch g.intn(6) {
 			case 0:
@@ -1402,7 +1524,7 @@ func propC16(c *Ctx) {
 				class = "aka-prf-empty-key"
 			}
 			c.violate(Violation{Suite: s.Name, Kind: "property", Index: j, Class: class,
-				Desc: "EapAkaPrimePRF differs from the RFC 5448 / 9048 key hierarchy", Input: line, Expected: want, Actual: clip(r.String())})
+				Desc: "EapAkaPrimePRF differs from the RFC 5448 / 9048 key hierarchy" + map[bool]string{true: " (call made right after a call with related arguments: " + derived + "; replay: re-run of the suite with this seed)", false: ""}[derived != ""], Input: line, Expected: want, Actual: clip(r.String())})
 		}
 	}
 	sc := c.suite("aka-prf-model-vs-impl", "correspondence",
